@@ -259,7 +259,8 @@ def apply(pool, op):
     if k == "load" and "self_bcast" in op["arr"]:
         a0, m = op["arr"]["self_bcast"]
         view = (w.data if kind_of(w) in ("D", "S") else w.raw_data)[a0:a0 + 1]
-        w.load_data(np.broadcast_to(view, (m,) + view.shape[1:]), copy=True)
+        w.load_data(np.broadcast_to(view, (m,) + view.shape[1:]), copy=True,
+                    **({"start_index": iarg(op["start"])} if op.get("start") is not None else {}))
         return None
     if k == "load":
         kw = {"copy": op["copy"]}
@@ -282,7 +283,14 @@ def apply(pool, op):
         elif ts == "wrong":
             w.append(arr, ["x"] * len(op["arr"]["vals"]))
         else:
-            w.append(arr, [mk_dtm(FAM, v) for v in ts])
+            lst = [mk_dtm(FAM, v) for v in ts]
+            try:
+                w.append(arr, lst)
+            finally:
+                # a hostile caller goes on using (and changing) the list it passed in, accepted or not
+                lst.reverse()
+                lst.extend(lst[:1] * 2)
+                del lst[:1]
         return None
     if k == "append_wfm":
         srcs = [pool.objs[j] for j in op["srcs"]]
@@ -507,10 +515,14 @@ class OnlineGen:
         if k == "load" and cnt and rng.random() < 0.08 and not (kind == "D" and ncols == 0):
             # load_data(copy=True) of a stride-0 view of one of the receiver's own samples, longer than its capacity
             a0 = rng.randrange(cnt)
-            m = (len(w.timing._timestamps) if irregular else cap + rng.choice([1, 3]))
+            s0 = rng.choice([0, 0, 1, 2])        # a window of the view: start_index > 0 as well
+            m = (len(w.timing._timestamps) if irregular else cap + rng.choice([1, 3])) + s0
             row = from_np((w.data if kind in ("D", "S") else w.raw_data)[a0:a0 + 1])[0]
-            return {"op": "load", "i": j, "copy": True,
-                    "arr": {"vals": [row] * m, "ndim": 2 if kind == "D" else 1, "ncols": ncols, "dtype": dtype, "form": "view", "self_bcast": [a0, m]}}
+            op = {"op": "load", "i": j, "copy": True,
+                  "arr": {"vals": [row] * m, "ndim": 2 if kind == "D" else 1, "ncols": ncols, "dtype": dtype, "form": "view", "self_bcast": [a0, m]}}
+            if s0:
+                op["start"] = s0
+            return op
         if k == "load":
             n = cnt if (irregular and rng.random() < 0.7) else None
             a = arr_desc(rng, kind, dtype, ncols, n=n, bad=self.bad)
